@@ -15,8 +15,8 @@ pub struct Signature {
     input_obj_arg: Vec<String>,
     output_obj_arg: Vec<String>,
 
-    total_bundled_input: u8,
-    total_bundled_output: u8,
+    total_bundled_input: usize,
+    total_bundled_output: usize,
 }
 
 impl Signature {
